@@ -333,7 +333,12 @@ let handle_world (c : case) (toks : string list) =
            (match cx with
             | Tap -> if n > 1000 then Some "more-than-1000-stack-elements" else None
             | Segwitv0 -> if n > 1000 then Some "more-than-1000-stack-elements" else if n > 100 then Some "more-than-100-witness-items" else None
-            | Legacy -> if n > 1000 then Some "more-than-1000-stack-elements" else if bytes > 1650 then Some "scriptsig-over-1650-bytes" else None
+            | Legacy ->
+              (* the scriptSig of a P2SH spend = the items + the push of the redeem script (Core judges the whole) *)
+              let sl = (match c.slen with (a, _) :: _ -> a | [] -> 0) in
+              let push = if sl < 76 then 1 else if sl < 256 then 2 else 3 in
+              if n > 1000 then Some "more-than-1000-stack-elements"
+              else if bytes + sl + push > 1650 then Some "scriptsig-over-1650-bytes" else None
             (* the library's Bare context has no scriptSig-size rule (bare descriptors admit only pk / pkh / multi) *)
             | Bare -> if n > 1000 then Some "more-than-1000-stack-elements" else None) in
          (match why with
